@@ -426,6 +426,15 @@ def corpus():
         dict(z, law="empty", dist="W", S=[[0.0, 1.0], [0.0, 3.0], [2.0, 4.0]], T=[], side="right"),
         dict(z, law="empty", dist="B", S=[[0.0, 1.0], [0.0, 3.0], [2.0, 4.0]], T=[], side="left"),
         dict(z, law="BleW", dist="BW", S=[[0.0, 1.0], [0.0, 3.0], [2.0, 4.0]], T=[[0.0, 2.0], [1.0, 1.5]]),
+        # magnitudes: short bars born late, a diagram in tiny units
+        dict(z, law="empty", dist="W", S=[[1000.0, 1000.004], [1000.5, 1000.507], [1000.25, 1000.2515]], T=[], side="left"),
+        dict(z, law="brute", dist="W", S=[[1000.0, 1000.004], [1000.5, 1000.507]], T=[[1000.001, 1000.006]]),
+        dict(z, law="BleW", dist="BW", S=[[1e-9, 3e-9], [2e-9, 2.5e-9]], T=[[1.5e-9, 3.5e-9]]),
+        # containers: [birth, death, dimension] rows, unsigned integers
+        dict(z, law="brute", dist="B", S=[[0.0, 2.0], [1.0, 5.0]], T=[[0.0, 3.0]], form="extra"),
+        dict(z, law="empty", dist="B", S=[[0.0, 2.0], [1.0, 5.0], [2.0, 3.0]], T=[], side="right", form="extra2"),
+        dict(z, law="brute", dist="B", S=[[3.0, 9.0], [10.0, 12.0]], T=[[4.0, 8.0], [9.0, 13.0]], form="u16"),
+        dict(z, law="sym", dist="W", S=[[3.0, 9.0], [10.0, 12.0]], T=[[4.0, 8.0], [9.0, 13.0], [1.0, 2.0]], form="i32"),
     ]
 
 
